@@ -118,6 +118,9 @@ func PrisonRuleListCheck(conf *PrisonRuleConfList) error {
 	// create a rule map
 	ruleMap := make(map[string]bool, 0)
 	for index, rule := range *conf {
+		if rule == nil {
+			return fmt.Errorf("prisonRule:%d, nil rule", index)
+		}
 		if err := PrisonRuleCheck(rule); err != nil {
 			return fmt.Errorf("prisonRule:%d, %s", index, err.Error())
 		}
